@@ -1,5 +1,7 @@
 import RosuModel.Model.FullPerf
 import RosuModel.Model.PipelineMania
+import RosuModel.Model.PipelineTaiko
+import RosuModel.Model.PipelineOsu
 
 /-!
 # C04 / C03 — performance END TO END on the map path, nothing abstract.  Core only.
@@ -87,5 +89,101 @@ def maniaGradualPerfValue (A : SecArith R) (fuel : Nat) (bytes : List UInt8) (mo
   | .fuel => .fuel
 
 end mania
+
+/-! ## osu!taiko from FILE BYTES (`Model/PipelineTaiko.lean`) -/
+
+section taikoEval
+variable {R : Type} [PPOps R]
+
+/-- `taiko::difficulty::DifficultyValues::eval` on the exported peak vectors and the stamina object strains, at
+value level (`Model/EvalCalc.lean: taikoEval`, `taikoCombinedRating`; `Iterator::sum` starts from `-0.0`), and the
+attribute record the pp calculator reads -/
+def taikoAttrsOfPeaks (rx : Bool) (greatHitWindow : R) (maxCombo : Nat)
+    (rhythm reading color stamina mono staminaObjectStrains : List R) : TaikoAttrs R :=
+  let dv := fun (l : List R) => Rosu.Agg.difficultyValue PerfCalc.aggOps 0.9 l
+  let staminaDV := dv stamina
+  let i : TaikoEvalIn R :=
+    { rhythmDV := dv rhythm, readingDV := dv reading, colorDV := dv color, staminaDV := staminaDV,
+      monoStaminaDV := dv mono,
+      staminaDifficultStrains := Rosu.PipelineOsu.countTopWeighted staminaObjectStrains staminaDV }
+  let e := PerfCalc.taikoEval i fun pm slb =>
+    taikoCombinedRating (-(0.0 : R)) rx false rhythm reading color stamina pm slb
+  { greatHitWindow := greatHitWindow, monoStaminaFactor := e.monoStaminaFactor, stars := e.stars,
+    maxCombo := maxCombo, isConvert := false }
+
+end taikoEval
+
+section taiko
+variable {R : Type} [FOps R] [NumOps R] [PPOps R] (O : Rosu.PipelineTaiko.TOps R)
+open Rosu.PipelineTaiko (taikoSkillsOfBytes recordsOf)
+
+/-- `TaikoPerformanceAttributes` -/
+structure TaikoPerfAttrs (R : Type) where
+  difficulty : TaikoAttrs R
+  out : TaikoOut R
+
+/-- the attributes from the final skill states (`eval`) -/
+def taikoAttrsOfSkills (rx : Bool) (greatHitWindow : R) (maxCombo : Nat) (sk : Rosu.TaikoSkill.Skills R) :
+    TaikoAttrs R :=
+  taikoAttrsOfPeaks rx greatHitWindow maxCombo (exportPeaksV sk.rhythm) (exportPeaksV sk.reading)
+    (exportPeaksV sk.color) (exportPeaksV sk.stamina) (exportPeaksV sk.singleColorStamina)
+    sk.stamina.objectStrains
+
+/-- legacy bits: EZ 2, HD 8, RX 128, FL 1024 -/
+def taikoSettingsOf (mods : Nat) (take : Option Nat) (prio : Prio) : TaikoSettings :=
+  { mods := { hd := mods / 8 % 2 = 1, ez := mods / 2 % 2 = 1, fl := mods / 1024 % 2 = 1 }, passed := take, prio := prio }
+
+def taikoOutMap {α β : Type} (f : α → β) : Rosu.PipelineTaiko.Out α → Rosu.PipelineTaiko.Out β
+  | .ok a => .ok (f a)
+  | .ioError => .ioError
+  | .notTaiko m => .notTaiko m
+  | .panic => .panic
+  | .fuel => .fuel
+
+/-- **one-shot difficulty attributes** of a native taiko file (what the pp calculator reads of them) -/
+def taikoDifficultyAttrs (A : SecArith R) (fuel : Nat) (bytes : List UInt8) (mods : Nat) (customRate take : Option Nat)
+    (greatHitWindow : R) : Rosu.PipelineTaiko.Out (TaikoAttrs R) :=
+  taikoOutMap (fun r => taikoAttrsOfSkills (mods / 128 % 2 = 1) greatHitWindow r.1 r.2)
+    (taikoSkillsOfBytes O A fuel bytes mods customRate take greatHitWindow)
+
+/-- attributes path -/
+def taikoPerfFromAttrs (a : TaikoAttrs R) (mods : Nat) (take : Option Nat) (prio : Prio) (b : TaikoB R) :
+    GenState.Res (TaikoPerfAttrs R) :=
+  (taikoFull stdSpecial a (taikoSettingsOf mods take prio) b).map fun o => ⟨a, o⟩
+
+/-- **map path**: `TaikoPerformance::new(&Beatmap::from_bytes(bytes)?)…calculate()` -/
+def taikoPerfFromMap (A : SecArith R) (fuel : Nat) (bytes : List UInt8) (mods : Nat) (customRate take : Option Nat)
+    (greatHitWindow : R) (prio : Prio) (b : TaikoB R) : Rosu.PipelineTaiko.Out (GenState.Res (TaikoPerfAttrs R)) :=
+  taikoOutMap (fun a => taikoPerfFromAttrs a mods take prio b)
+    (taikoDifficultyAttrs O A fuel bytes mods customRate take greatHitWindow)
+
+def TaikoB.fresh : TaikoB R := ⟨none, none, none, none, none⟩
+
+/-- **`TaikoGradualPerformance`** advanced to the `i`-th HIT (`i ≥ 1`; taiko's `passed_objects` counts hits) with
+state `s`; `none` = exhausted -/
+def taikoGradualPerfValue (A : SecArith R) (fuel : Nat) (bytes : List UInt8) (mods : Nat) (customRate : Option Nat)
+    (greatHitWindow : R) (i : Nat) (s : TaikoState) : Rosu.PipelineTaiko.Out (Option (GenState.Res (TaikoPerfAttrs R))) :=
+  match Rosu.DecodeLine.fromBytes bytes with
+  | none => .ioError
+  | some d =>
+    match recordsOf O d (O.dec64 (Rosu.PipelineTaiko.clockRateBits mods customRate)) mods with
+    | .ok (hits, recs) =>
+      if i = 0 then .ok none
+      else
+        match (Rosu.PipelineTaiko.gradualValues A fuel greatHitWindow hits recs)[i - 1]? with
+        | none => .ok none
+        | some .none => .ok none
+        | some .panic => .panic
+        | some (.some (mc, .ok sk)) =>
+          .ok (some (taikoPerfFromAttrs (taikoAttrsOfSkills (mods / 128 % 2 = 1) greatHitWindow mc sk) mods (some i)
+            .best (TaikoB.fresh.update s)))
+        | some (.some (_, .panic)) => .panic
+        | some (.some (_, .fuel)) => .fuel
+    | .ioError => .ioError
+    | .notTaiko m => .notTaiko m
+    | .panic => .panic
+    | .fuel => .fuel
+
+end taiko
 
 end Rosu.PipelinePerf
